@@ -82,6 +82,39 @@ fn judge(obs: &Obs, what: &str, rep: &mut Report, d: &dyn Fn() -> J) {
                     }
                     rep.counters.add("replies_whose_ids_were_checked", dec.spans.len().saturating_sub(2) as u64);
                 }
+                // and what the server says to the bytes the harness appended raw (malformed, unknown,
+                // truncated commands - `raw_tail`): whatever it is, each reply starts one above the id of
+                // a packet of that tail, in the tail's order, and runs on from there
+                if let (Some(&(tail_at, _)), Some(&(_, last_msg))) = (obs.ends.last(), dec.spans.last()) {
+                    if dec.spans.len() == obs.kinds.iter().filter(|k| k.expects_reply()).count() && tail_at < obs.world.input.len() {
+                        let (tp, _) = wire::packets_prefix(&obs.world.input[tail_at..]);
+                        if let Some(m) = msgs.get(last_msg) {
+                            let mut j = 0;
+                            let mut prev: Option<u8> = None;
+                            for (k, p) in pkts[m.first..].iter().enumerate() {
+                                rep.counters.inc("packets_sent_in_reply_to_raw_input_whose_ids_were_checked");
+                                if prev.map_or(false, |pv| p.seq == pv.wrapping_add(1)) {
+                                    prev = Some(p.seq);
+                                    continue;
+                                }
+                                let mut found = false;
+                                while j < tp.len() {
+                                    let r = tp[j].seq;
+                                    j += 1;
+                                    if p.seq == r.wrapping_add(1) {
+                                        found = true;
+                                        break;
+                                    }
+                                }
+                                if !found {
+                                    rep.violations.push(viol("C20", format!("C20 reply-with-foreign-sequence-id {}", what), format!("packet #{} of what the server sent in reply to the raw part of the input carries id {}, which neither continues the packet before it nor is one above the id of any (remaining) request packet {:?}", k, p.seq, tp.iter().map(|p| p.seq).collect::<Vec<_>>()), d()));
+                                    return;
+                                }
+                                prev = Some(p.seq);
+                            }
+                        }
+                    }
+                }
                 rep.counters.add("inputs_answered_conformantly", dec.resps.len().saturating_sub(2) as u64);
             }
         }
